@@ -48,6 +48,15 @@ def is_int_type(t):
                  'std::size_t', 'size_t')
 
 
+def int_width(t):
+    """width in bits of an integer type on the LP64 target of this build, or None"""
+    t = (t or '').replace('const ', '').replace('volatile ', '').strip()
+    table = {'bool': 1, 'char': 8, 'signed char': 8, 'unsigned char': 8, 'short': 16, 'unsigned short': 16,
+             'int': 32, 'unsigned int': 32, 'unsigned': 32, 'long': 64, 'unsigned long': 64,
+             'long long': 64, 'unsigned long long': 64}
+    return table.get(t)
+
+
 class N:
     __slots__ = ('op', 'k', 'a', 'ty', 'loc', 'cid')
 
@@ -256,6 +265,18 @@ class Lowerer:
     def mk(self, op, node, kids=(), **a):
         return N(op, kids, ty=self.ty(node), loc=self.loc(node), cid=node.get('id'), **a)
 
+    def integral_cast(self, node, src, sub, implicit):
+        """integer conversions are value-preserving and dropped, except conversions to a narrower
+        type: those are kept as cast nodes (kind IntegralCast) with both widths"""
+        def des(n):
+            t = n.get('type') or {}
+            return (t.get('desugaredQualType') or t.get('qualType') or '')
+        ws, wt = int_width(des(src)), int_width(des(node))
+        if ws and wt and wt < ws and wt > 1:
+            return self.mk('cast', node, [sub], kind='IntegralCast', implicit=implicit, frm=des(src), to=des(node),
+                           wfrom=ws, wto=wt)
+        return sub
+
     def note_unknown(self, node):
         k = node.get('kind')
         self.unknown[k] = self.unknown.get(k, 0) + 1
@@ -405,7 +426,7 @@ class Lowerer:
             if ck in VALUE_CASTS:
                 sub = self.expr(inner[0])
                 if ck == 'IntegralCast':
-                    return sub
+                    return self.integral_cast(node, inner[0], sub, True)
                 return self.mk('cast', node, [sub], kind=ck, implicit=True)
             return self.expr(inner[0])
         if k in ('ParenExpr', 'ExprWithCleanups', 'MaterializeTemporaryExpr', 'CXXBindTemporaryExpr',
@@ -417,6 +438,8 @@ class Lowerer:
             sub = self.expr(inner[0])
             if ck in VALUE_CASTS and ck != 'IntegralCast':
                 return self.mk('cast', node, [sub], kind=ck, implicit=False)
+            if ck == 'IntegralCast' and inner:
+                return self.integral_cast(node, inner[0], sub, False)
             if k == 'CXXReinterpretCastExpr':
                 return self.mk('cast', node, [sub], kind='reinterpret_cast', implicit=False)
             if ck == 'BaseToDerived':
